@@ -10,6 +10,8 @@ namespace Hls.Conc
 def closeReturned (s : State) : Prop :=
   (∃ c ∈ s.threads, c.kind = .closer) ∧ ∀ c ∈ s.threads, c.kind = .closer → c.result.isSome = true
 
+instance (s : State) : Decidable (closeReturned s) := by unfold closeReturned; exact inferInstance
+
 theorem step_cases {cfg : Cfg} {s s' : State} {t : Nat} {c : Bool} (hs : step cfg s t c = some s') :
     ∃ tht sh' tht' bc, s.threads[t]? = some tht ∧ stepThread cfg t s.sh tht c = some (sh', tht', bc) ∧
       s' = { sh := sh', threads := if bc = true then (s.threads.set t tht').map wake else s.threads.set t tht' } := by
